@@ -313,7 +313,15 @@ def _apply_add_metabolites(eng, st, model, met, pre=None):
         # the witness of `x joins` (position 0 of the one-element list) as a ground step first: under load the existential alone took
         # 50 s in the larger context of c02_add_reactions_ctx
         lemmas.insert(0, ("x-joins:witness", z3.substitute_vars(joins_x.body(), z3.IntVal(0))))
+        witnessed = True
+    else:
+        witnessed = False
     for nm_, f in lemmas:
+        if nm_ == "x-joins" and witnessed:
+            # `exists j. body(j)` follows from the obliged ground instance body(0) by exists-introduction (pure logic): assumed without a
+            # second query (left to the solver it took 36 s on a retry seed in the in-context state)
+            s2 = s2.assume(f)
+            continue
         eng.oblige(s2, f, f"call:Model.add_metabolites/lemma:{nm_}", kind="side")
         s2 = s2.assume(f)
     return [("ok", s2, NONE)]
